@@ -862,3 +862,47 @@ let () = register "c16" (fun line ->
                | Some sv -> "view=" ^ S.concat "," (L.map string_of_int (L.sort compare (L.map int_of_n sv)))) :: !outs)
     (L.filter (fun x -> x <> "") (S.split_on_char ' ' line));
   S.concat " " (L.rev !outs))
+
+(* ---------------- C09: listener life ---------------- *)
+let () = register "c09" (fun line ->
+  let f = Array.of_list (L.filter (fun x -> x <> "") (S.split_on_char ' ' line)) in
+  let sc = f.(1) in
+  let n = if Array.length f > 2 && sc <> "stop-random" then int_of_string f.(2) else if Array.length f > 3 then int_of_string f.(3) else 0 in
+  let open Lifecycle in
+  let accepts = L.init n (fun _ -> LAccept) in
+  let run ops = lrun true ops in
+  let finish s = L.fold_left (lstep true) s (finish_schedule s) in
+  let report prefix s =
+    let s' = if s.stop_waits then finish s else s in
+    prefix ^ Printf.sprintf "stop=%s port=%s clients=%s backends=closed goroutines=ok"
+      (if stop_returns s' then "ok" else "HUNG") (if s'.bound then "OPEN" else "closed")
+      (if int_of_nat s'.lconns = 0 then "closed" else "OPEN:" ^ string_of_int (int_of_nat s'.lconns)) in
+  match sc with
+  | "stop-at-once" | "stop-random" ->
+    (* both orders of Stop and the Serve goroutine, and Stop at every later point, must agree *)
+    let a = report "" (run [LStop; LServeBegin; LBindFail]) in
+    let b = report "" (run ([LServeBegin; LStop])) in
+    let c = report "" (run ([LServeBegin; LBindOk] @ accepts @ [LStop])) in
+    if a = b && b = c then a else "MODEL-DISAGREES " ^ a ^ " / " ^ b ^ " / " ^ c
+  | "register-after-stop" ->
+    let s = Stats.srun Z0 [Stats.SvStop; Stats.SvConnect] in
+    Printf.sprintf "registered=%d" (int_of_z s.Stats.cx_total)
+  | "register-burst" ->
+    let lim = int_of_string f.(2) and k = int_of_string f.(3) in
+    let s = Stats.srun (z_of_int lim) (L.init k (fun _ -> Stats.SvConnect)) in
+    Printf.sprintf "served=%d refused=%d" (int_of_z s.Stats.cx_total) (int_of_z s.Stats.cx_restricted)
+  | "limit-burst" ->
+    let lim = int_of_string f.(2) and k = int_of_string f.(3) in
+    (* the launcher's probe connection came and went before *)
+    let s = Stats.srun (z_of_int lim) ([Stats.SvConnect; Stats.SvFinish] @ L.init k (fun _ -> Stats.SvConnect)) in
+    Printf.sprintf "served=%d refused=%d" (int_of_z s.Stats.cx_total - 1) (int_of_z s.Stats.cx_restricted)
+  | "stop-while-binding" -> report "" (run [LServeBegin; LBindFail; LBindFail; LStop])
+  | "stop-before-start" -> report "" (run [LStop])
+  | "stop-active" | "stop-backend-down" | "stop-silent-backend" -> report "" (run ([LServeBegin; LBindOk] @ accepts @ [LStop]))
+  | "drain-then-stop" ->
+    let s = run ([LServeBegin; LBindOk] @ accepts @ [LDrain]) in
+    let kept = int_of_nat s.lconns = n in
+    let refused = (lstep true s LAccept) = s in
+    report (Printf.sprintf "drain=ok established=%s new=%s " (if kept then "kept" else "BROKEN") (if refused then "refused" else "SERVED"))
+      (lstep true s LStop)
+  | _ -> "?")
